@@ -233,7 +233,7 @@ func init() {
 // typeShapes are the shapes on which every element type gets the canonical scripts of C08.enum.
 func typeShapes(tier string) [][2]int {
 	var s [][2]int
-	max := 4
+	max := 3
 	if tier == "thorough" {
 		max = 6
 	}
@@ -242,7 +242,11 @@ func typeShapes(tier string) [][2]int {
 			s = append(s, [2]int{w, h})
 		}
 	}
-	return append(s, [][2]int{{7, 2}, {2, 7}, {9, 5}, {5, 9}, {33, 3}, {3, 33}, {70, 1}, {1, 70}}...)
+	s = append(s, [][2]int{{5, 2}, {2, 5}, {33, 2}, {2, 33}, {70, 1}, {1, 70}}...)
+	if tier == "thorough" {
+		s = append(s, [][2]int{{9, 5}, {5, 9}, {33, 3}, {3, 33}, {17, 16}, {130, 2}}...)
+	}
+	return s
 }
 
 var specTypes = pbt.Register(&pbt.Spec[Case]{
@@ -251,8 +255,8 @@ var specTypes = pbt.Register(&pbt.Spec[Case]{
 		"slice []int (nil, empty non-nil, spare capacity; not comparable), map (nil, empty), func (nil), ncstruct struct{[]int; float64; any} (not comparable), any (nil, 0, -0.0, " +
 		"non-comparable dynamic values, typed nil pointer, struct{}{}), str (\"\", blanks, brackets), ptr (nil), u8, padded (struct with padding, 96 bytes), stringer (named int with a " +
 		"String method, jagged input given as named slice types), error (interface with methods, nil), unit struct{} / zsnc struct{[0]func()} / zarr [0]int (zero-size; zsnc also not " +
-		"comparable)} x shapes 0..4 x 0..4 (thorough 0..6) + 7x2, 2x7, 9x5, 5x9, 33x3, 3x33, 70x1, 1x70 x the canonical cases of C08.enum (constructors alone incl. New2DFilled with the " +
-		"ordinary value and with EVERY special value of the type, 10 jagged inputs; scripts set/get/row/span/fill/fill-oob/special/clone/keep on each constructor). Values are compared " +
+		"comparable)} x shapes 0..3 x 0..3 (thorough 0..6) + 5x2, 2x5, 33x2, 2x33, 70x1, 1x70 (thorough also 9x5, 5x9, 33x3, 3x33, 17x16, 130x2) x the canonical cases of C08.enum (constructors alone incl. New2DFilled with the " +
+		"ordinary value and with EVERY special value of the type, 10 jagged inputs; scripts set/row/span/fill from the last row/special/clone/keep on each constructor; thorough: all scripts). Values are compared " +
 		"by bit pattern (floats) or identity (slices, maps, pointers), String by fmt.Sprint of each cell; for zero-size types only panics, lengths and String are observable; " + rule,
 	Enum: func(shard, shards int, tier string, yield func(Case) bool) {
 		for _, T := range typeOrder {
@@ -260,7 +264,7 @@ var specTypes = pbt.Register(&pbt.Spec[Case]{
 				continue
 			}
 			for _, s := range typeShapes(tier) {
-				if !enumShape(T, s[0], s[1], yield) {
+				if !enumShape(T, s[0], s[1], tier != "thorough", yield) {
 					return
 				}
 			}
